@@ -137,6 +137,30 @@ def rule_SER(FA):
             if wrappers:
                 out.append(Inst('R-SER', 'R-SER|%s|serialize uses field types' % base, 'violation', ser['span'],
                                 'a field of %s is serialized through a wrapper type (%s): hand-written field serializer outside the trusted derive' % (short, wrappers[0].split('::')[-1]), props))
+            # every serialize_field is unconditional: besides the `?` of each call (enum discriminant switches) and
+            # drop flags (booleans assigned from constants) a derived serialize has no branch
+            SF = FA.fn(ser)
+            cond = []
+            for bi, b in enumerate(SF.blocks):
+                t = b['t']
+                if t['k'] != 'switch' or 'p' not in t['d'] or t['d']['p']['proj']:
+                    continue
+                ds = SF.defs.get(t['d']['p']['l'], [])
+                kinds = set()
+                for d in ds:
+                    if d[1] == 'call':
+                        kinds.add('call:' + d[2]['f'].get('fn', {}).get('name', '?'))
+                    elif d[2]['k'] == 'discr':
+                        kinds.add('discr')
+                    elif d[2]['k'] == 'use' and 'c' in d[2]['a']:
+                        kinds.add('const')
+                    else:
+                        kinds.add(d[2]['k'])
+                if kinds - {'discr', 'const'}:
+                    cond.append(', '.join(sorted(kinds - {'discr', 'const'})))
+            if cond:
+                out.append(Inst('R-SER', 'R-SER|%s|serialize is unconditional' % base, 'violation', ser['span'],
+                                'serialization of %s branches on a computed condition (%s): a field is written only sometimes (skip_serializing_if), which a positional format cannot read back' % (short, cond[0]), props))
             used = _self_fields_used(ser)
             missing = [x for x in fields if x not in names and x not in used]
             skipped = [x for x in fields if x not in names] if names else []
@@ -159,6 +183,12 @@ def rule_SER(FA):
             etys = [t['f']['fn']['gargs'][-1] for b in vs[0]['blocks'] for t in [b['t']]
                     if t['k'] == 'call' and 'fn' in t['f'] and t['f']['fn']['name'] == 'next_element' and t['f']['fn'].get('gargs')]
             ftys = [x['ty'] for x in adt['fields']]
+            n_inv = sum(1 for b in vs[0]['blocks'] for t in [b['t']] if t['k'] == 'call' and 'fn' in t['f'] and t['f']['fn']['name'] == 'invalid_length')
+            n_def = sum(1 for b in vs[0]['blocks'] for t in [b['t']] if t['k'] == 'call' and 'fn' in t['f'] and t['f']['fn']['name'] == 'default'
+                        and 'PhantomData' not in t['f']['fn'].get('full', ''))
+            if n_inv < n - (len(fields) - len(nonphantom)) or n_def:
+                out.append(Inst('R-SER', 'R-SER|%s|missing element is an error' % base, 'violation', vs[0]['span'],
+                                'deserializer substitutes a default for a missing element of %s (serde(default)): %d invalid_length arms for %d reads' % (short, n_inv, n), props))
             if (n == len(fields) or n == len(nonphantom)) and sorted(etys) != sorted(ftys) and sorted(etys) != sorted(x['ty'] for x in nonphantom):
                 odd = [e for e in etys if e not in ftys]
                 out.append(Inst('R-SER', key, 'violation', vs[0]['span'],
